@@ -6,6 +6,7 @@ import tprog, gen_dag, gen_ops
 
 tprog.LAYOUTS = True       # operands in every memory layout (results and gradients must keep the dtype whatever the strides)
 tprog.ENTRIES = True
+tprog.DTYPE_KW = True
 PROP = 'C10'
 LEAN_TARGETS = ['Props.C10']
 REQUIRED_THEOREMS = ['Props.C10.result_dtype_preserved', 'Props.C10.grad_buffer_dtype_shape', "Props.C10.scalar_operand_dtype'", "Props.C10.apply_result_dtype'", 'Props.C10.apply_aligned']
